@@ -504,3 +504,36 @@ def seq_model(p: Path, t: ast.AST, upto: Optional[int] = None) -> Optional[List[
             else:
                 return None
     return out
+
+
+def derives_from(p: Path, t: ast.AST, needle: str) -> bool:
+    """Does the value `t` (on this path) derive from the value whose expanded text is `needle`?  Looks through call
+    placeholders and through containers built on the path: a list/dict/set allocated here derives from what was appended,
+    added, extended or stored into it (also via `d.setdefault(k, []).append(x)`)."""
+    from .kernel import xshow
+
+    evs = p.events
+    if needle in xshow(t, evs):
+        return True
+    seen = set()
+    todo = [n_.id for n_ in ast.walk(t) if isinstance(n_, ast.Name) and n_.id.startswith(("$l", "$c"))]
+    while todo:
+        nm = todo.pop()
+        if nm in seen:
+            continue
+        seen.add(nm)
+        for e_ in evs:
+            if e_.kind == "call" and isinstance(e_.term.func, ast.Attribute) and e_.term.func.attr in ("append", "add", "extend", "update", "insert", "setdefault"):
+                recv = e_.term.func.value
+                if show(recv) == nm or nm in {x.id for x in ast.walk(expand1(recv, evs)) if isinstance(x, ast.Name)}:
+                    for a_ in e_.term.args:
+                        if needle in xshow(a_, evs):
+                            return True
+                        todo.extend(n_.id for n_ in ast.walk(a_) if isinstance(n_, ast.Name) and n_.id.startswith(("$l", "$c")))
+            if e_.kind == "store" and e_.x.get("subscript") and show(e_.term.value) == nm:
+                if needle in xshow(e_.x["value"], evs) + xshow(e_.term.slice, evs):
+                    return True
+            if e_.kind == "call" and f"$c{e_.idx}" == nm:
+                for a_ in list(e_.term.args) + [e_.term.func]:
+                    todo.extend(n_.id for n_ in ast.walk(a_) if isinstance(n_, ast.Name) and n_.id.startswith(("$l", "$c")))
+    return False
